@@ -202,7 +202,10 @@ def rule_p1_p2(f, R, expect_splits):
         site = f.site
         ctext = f"re.split({su.pattern!r})"
         # --- P2 drop
-        if not su.drops:
+        implicit = bool(su.consumers) and all(c[1] is not None and c[1] >= 1 for c in su.consumers)
+        if not su.drops and implicit:
+            R.ok("P2", site, ctext + " drop", detail="item 0 (text before the first match) is skipped by the strided slices themselves")
+        elif not su.drops:
             R.fail("P2", site, ctext, f"the text before the first match of {su.pattern!r} is never dropped from the split result",
                    where=f.where(su.call), expected="result[1:] taken unconditionally", found="no drop")
         for st, cond, lo in su.drops:
@@ -424,6 +427,51 @@ def rule_p3(f, R):
     if n_float < 2:
         raise AnalysisError("P3", f"expected >= 2 float() conversions in {f.qualname}, found {n_float}", f.where())
     return [p for _c, p, _g in rows]
+
+
+def normalise_parser(f):
+    """Module-level constants used by a parser are brought into the function: `G = <literal>` becomes a local definition at the top,
+    and methods of a pre-compiled pattern `G = re.compile(r"...")` are rewritten to the function form (`G.split(s)` ->
+    `re.split(r"...", s)`), so that the rules see one idiom."""
+    if getattr(f, "_c18_normalised", False):
+        return
+    f._c18_normalised = True
+    mod = f.module
+    fn = f.node
+    local_stores = {n.id for n in ast.walk(fn) if isinstance(n, ast.Name) and isinstance(n.ctx, ast.Store)} | set(f.params)
+    used = {n.id for n in ast.walk(fn) if isinstance(n, ast.Name) and isinstance(n.ctx, ast.Load)} - local_stores
+    patterns = {}
+    consts = {}
+    for g in sorted(used):
+        v = mod.globals.get(g)
+        if v is None:
+            continue
+        if isinstance(v, ast.Call) and ast.unparse(v.func) == "re.compile" and v.args and isinstance(v.args[0], ast.Constant) and isinstance(v.args[0].value, str) \
+                and len(v.args) == 1 and not v.keywords:
+            patterns[g] = v.args[0]
+        elif isinstance(v, (ast.Dict, ast.Constant, ast.Tuple, ast.List)) or (isinstance(v, ast.DictComp)):
+            consts[g] = v
+
+    class Rewrite(ast.NodeTransformer):
+        def visit_Call(self, node):
+            self.generic_visit(node)
+            if isinstance(node.func, ast.Attribute) and isinstance(node.func.value, ast.Name) and node.func.value.id in patterns \
+                    and node.func.attr in ("split", "search", "match", "fullmatch", "findall", "sub"):
+                new = ast.Call(func=ast.Attribute(value=ast.Name(id="re", ctx=ast.Load()), attr=node.func.attr, ctx=ast.Load()),
+                               args=[patterns[node.func.value.id]] + list(node.args), keywords=node.keywords)
+                return ast.copy_location(new, node)
+            return node
+    Rewrite().visit(fn)
+    import copy
+    pre = []
+    for g, v in consts.items():
+        a = ast.Assign(targets=[ast.Name(id=g, ctx=ast.Store())], value=copy.deepcopy(v))
+        ast.copy_location(a, v)
+        pre.append(a)
+    # keep a leading docstring first
+    k = 1 if fn.body and isinstance(fn.body[0], ast.Expr) and isinstance(fn.body[0].value, ast.Constant) else 0
+    fn.body[k:k] = pre
+    ast.fix_missing_locations(fn)
 
 
 def rule_p9(f, R):
@@ -1006,6 +1054,9 @@ def run(repo, R):
     R.rule("PYSCF", "from_pyscf unpacks [l, [exp, c1, c2...], ...] records: l, column 0, columns 1:, per atom in _atom order")
     R.rule("E1", "the import functions do not mutate their arguments (EFFECTS)")
     _REPO[:] = [repo]
+    for _q in ("gbasis.parsers.parse_nwchem", "gbasis.parsers.parse_gbs"):
+        for _g in with_helpers(repo.func(_q)):
+            normalise_parser(_g)
     nw = repo.func("gbasis.parsers.parse_nwchem")
     gbs = repo.func("gbasis.parsers.parse_gbs")
     mk = repo.func("gbasis.parsers.make_contractions")
